@@ -291,6 +291,25 @@ def h_float_registry_fraction_exponents(eng):
             eng.prove(all(type(v) in (int, Fraction) for v in cont.values()), f"float-registry:{lname}:exact-exponent-types:{a}")
 
 
+def h_power_does_not_mutate(eng, option):
+    """powers of quantities never touch the operand -- in particular exponent 1 (the result may
+    be the operand itself) under registry options that rewrite results"""
+    ureg = regs.default(eng, **({option: True} if option else {}))
+    if option == "autoconvert_to_preferred":
+        ureg.default_preferred_units = [ureg.meter, ureg.second]
+    x = eng.real("x")
+    for units in ("kilometer*meter", "meter/kilometer", "inch*foot/second", "newton"):
+        for ei, e in enumerate((1, eng.num(1), 1.0, ureg.Quantity(1, ""), ureg.Quantity(eng.num(100), "percent"), 2, 0, -1)):
+            q = ureg.Quantity(x, units)
+            before = dict(q._units)
+            try:
+                q**e
+            except ZeroDivisionError:
+                continue
+            eng.prove(Eq(q.magnitude, x), f"pow:{option}:{units}:e{ei}:operand-magnitude-untouched")
+            eng.prove(dict(q._units) == before, f"pow:{option}:{units}:e{ei}:operand-units-untouched")
+
+
 # ----------------------------------------------------------------------------- pi theorem
 
 
@@ -450,6 +469,8 @@ def cases(tier, seed):
     pairs = [("newton", "meter"), ("joule", "second"), ("inch", "hertz")] + [tuple(rnd.sample(cov, 2)) for _ in range(8 if big else 2)]
     for n1, n2 in pairs:
         out.append(Case("H04.c", f"{n1},{n2}", M, "h_unit_layer", {"names": [n1, n2], "bound": 2}, opts=const, weight=30.0, validate=3))
+    for option in (None, "auto_reduce_dimensions", "autoconvert_to_preferred"):
+        out.append(Case("H04.c", f"power-does-not-mutate:{option}", M, "h_power_does_not_mutate", {"option": option}, validate=1))
     out.append(Case("H04.c", "float-registry-fraction-exponents", M, "h_float_registry_fraction_exponents", {}, kind="conc"))
     for rows, cols in [(2, 2), (2, 3), (3, 2)] + ([(3, 3)] if big else []):
         out.append(Case("H04.d", f"echelon-{rows}x{cols}", M, "h_echelon", {"rows": rows, "cols": cols, "bound": 2 if rows * cols <= 6 else 1, "realise": rows * cols > 6}, opts={"hash_mode": "const", "max_paths": 60000, "max_wall_s": 900, "query_timeout_ms": 30000}, weight=80.0, validate=4))
